@@ -32,19 +32,26 @@ TARGETED = [
     'select a from t where length(b) > 1 and ifnull(c, 0) = 1 and char_length(d) < now() order by ceil(e), upper(f)',
     'select coalesce(lower(a), substr(b, 1, 2)) from t where abs(c) = round(d, 1) group by concat(a, b) having max(length(a)) > 1',
     'insert into t (a) select length(b) from u where ifnull(c, 1) = 1',
+    # single-element lists, boundary numbers, values that overflow to inf, odd column lists
+    'select a from t where b in (1)', "select a from t where b in ('x')", 'select a from t where b not in (c + 1)', 'select a from t where b in (?)',
+    'select a from t where b in ((1))', 'select a from t where (b) in (1, 2)', 'select a from t limit 0', 'select a from t where b = -0',
+    'create model m predict y using a = ' + '9' * 400 + '.5', 'select count(a, b) from t using x = ' + '9' * 400 + '.0, y = [1, ' + '9' * 400 + '.0]',
+    'create model m from db (select 1) predict y using a = {"k": ' + '9' * 400 + '.0}', 'select ' + '9' * 400 + '.0 from t',
+    'select a from t where b = ' + '9' * 400 + '.0', 'retrain m using a = ' + '9' * 400 + '.0',
     'update t set a = length(b) where char_length(c) > 2',
     'select * from (select length(a) as l from t where ifnull(b, 0) = 0) as s', 'select b.* from a.b', 'select `a b`.`c d` from `e f`', 'select 1.5, null, true, \'x\'',
 ]
 
 
 def _case(args):
-    sql, d = args
+    sql, d = args[0], args[1]
+    pd = args[2] if len(args) > 2 else 'mindsdb'        # dialect whose parser builds the tree
     from mindsdb_sql import parse_sql
     from mindsdb_sql.render.sqlalchemy_render import SqlalchemyRender
     from .project import jdump, proj
     out = []
     try:
-        tree = parse_sql(sql, 'mindsdb')
+        tree = parse_sql(sql, pd)
     except Exception:   # noqa
         return None
     kind = type(tree).__name__
@@ -78,8 +85,8 @@ def _case(args):
             out.append(rec)
             if changed:
                 # continue with a fresh tree so that one mutation is not counted again
-                tree = parse_sql(sql, 'mindsdb')
-    return {'sql': sql, 'dialect': d, 'kind': kind, 'recs': out}
+                tree = parse_sql(sql, pd)
+    return {'sql': sql, 'dialect': d, 'kind': kind, 'recs': out, 'parser': pd}
 
 
 def run(ctx):
@@ -111,6 +118,13 @@ def run(ctx):
         ds = DIALECTS if (thorough or i < len(TARGETED)) else [DIALECTS[i % len(DIALECTS)], DIALECTS[(i + 3) % len(DIALECTS)]]
         for d in ds:
             work.append((s, d))
+    # trees built by the other two dialect parsers (their grammars accept shapes the mindsdb grammar does not)
+    for pd in ('mysql', 'sqlite'):
+        extra = ['insert into t (1, b) values (2, 3)', 'insert into t (a, false, *) values (1, 2, 3)', 'select a from t where b in (1)',
+                 "select 'x' 'y' from t", 'select a from t order by 1 desc limit 1, 2']
+        cov_ = [s_ for s_, _, _ in grammargen.cover_texts(ctx, pd, variants=1)]
+        for i, s_ in enumerate(extra + cov_):
+            work.append((s_, DIALECTS[i % len(DIALECTS)], pd))
     res = [r for r in pmap(_case, work, chunksize=16) if r]
     traces, meta = [], []
     for r in res:
@@ -135,7 +149,8 @@ def run(ctx):
             else:
                 sig = '%s:%s:%s' % (flag, rec['cls'], r['kind'])
             ctx.violation(sig, 'renderer contract: %s (%s)' % (flag, rec['msg']),
-                          {'sql': r['sql'], 'dialect': r['dialect'], 'api': rec['api'], 'with_failback': bool(rec['flag'])},
+                          {'sql': r['sql'], 'dialect': r['dialect'], 'api': rec['api'], 'with_failback': bool(rec['flag']),
+                           'parsed_by': r.get('parser')},
                           pin=('%s|%s' % (r['sql'], r['dialect']), [flag, rec['cls']]))
     ctx.cov['traces_validated_against_impl'] = len(traces)
     ctx.cov['evaluations'] = len(traces)
